@@ -448,17 +448,20 @@ class _Unmarshaller:
         c = self._read(1)
         if not c:
             raise EOFError
+        if PYTHON3 and isinstance(c, bytes):
+            # The dispatch table is keyed by one-character strings
+            c = chr(c[0])
         try:
             return self.dispatch[c](self)
         except KeyError:
             raise ValueError("bad marshal code: %c (%d)" % (c, Ord(c)))
 
     def r_byte(self):
-        return Ord(self._read(1))
+        return Ord(self._read(1)[0])
 
     def r_short(self):
-        lo = Ord(self._read(1))
-        hi = Ord(self._read(1))
+        lo = Ord(self._read(1)[0])
+        hi = Ord(self._read(1)[0])
         x = lo | (hi << 8)
         if x & 0x8000:
             x = x - 0x10000
@@ -478,14 +481,14 @@ class _Unmarshaller:
             return x
 
     def r_long64(self):
-        a = Ord(self._read(1))
-        b = Ord(self._read(1))
-        c = Ord(self._read(1))
-        d = Ord(self._read(1))
-        e = Ord(self._read(1))
-        f = Ord(self._read(1))
-        g = Ord(self._read(1))
-        h = Ord(self._read(1))
+        a = Ord(self._read(1)[0])
+        b = Ord(self._read(1)[0])
+        c = Ord(self._read(1)[0])
+        d = Ord(self._read(1)[0])
+        e = Ord(self._read(1)[0])
+        f = Ord(self._read(1)[0])
+        g = Ord(self._read(1)[0])
+        h = Ord(self._read(1)[0])
         x = a | (b << 8) | (c << 16) | (d << 24)
         x = x | (e << 32) | (f << 40) | (g << 48) | (h << 56)
         if h & 0x80 and x > 0:
@@ -546,7 +549,7 @@ class _Unmarshaller:
     dispatch[TYPE_LONG] = load_long
 
     def load_float(self):
-        n = Ord(self._read(1))
+        n = Ord(self._read(1)[0])
         s = self._read(n)
         return float(s)
 
@@ -559,10 +562,10 @@ class _Unmarshaller:
     dispatch[TYPE_BINARY_FLOAT] = load_binary_float
 
     def load_complex(self):
-        n = Ord(self._read(1))
+        n = Ord(self._read(1)[0])
         s = self._read(n)
         real = float(s)
-        n = Ord(self._read(1))
+        n = Ord(self._read(1)[0])
         s = self._read(n)
         imag = float(s)
         return complex(real, imag)
